@@ -28,6 +28,67 @@ func runUnpack(cs string) string {
 	return msgText(m)
 }
 
+// reencode (C02, "every message the proxy accepts is re-encoded … to the same header fields"):
+// case = hex bytes → err | re=<hex of Unpack then Pack without compression, no limit>
+func runReencode(cs string) string {
+	b := unhex(strings.TrimSpace(cs))
+	m, err := dnsmsg.UnpackMsg(b)
+	if err != nil {
+		return "err"
+	}
+	defer dnsmsg.ReleaseMsg(m)
+	buf := make([]byte, m.Len())
+	n, err := m.Pack(buf, false, 0)
+	if err != nil {
+		return "packerr"
+	}
+	return "re=" + hexs(buf[:n])
+}
+
+// every 16-bit flag word on a small message (thorough: all 65536; quick: every single bit, every
+// pair of bits and a random sample), random flag words and ids on generated messages
+func genReencode(r *rand.Rand, thorough bool, emit func(c, cat string)) {
+	small := unhex("0000000000010000000000000161000001" + "0001")
+	word := func(w int, cat string) {
+		b := append([]byte(nil), small...)
+		b[2], b[3] = byte(w>>8), byte(w)
+		emit(hexs(b), cat)
+	}
+	if thorough {
+		for w := 0; w < 65536; w++ {
+			word(w, "flagword-all")
+		}
+	} else {
+		word(0, "flagword-bits")
+		for i := 0; i < 16; i++ {
+			word(1<<uint(i), "flagword-bits")
+			for j := i + 1; j < 16; j++ {
+				word(1<<uint(i)|1<<uint(j), "flagword-bits")
+			}
+		}
+		for i := 0; i < 600; i++ {
+			word(r.Intn(65536), "flagword-rand")
+		}
+	}
+	n := 300
+	if thorough {
+		n = 6000
+	}
+	for i := 0; i < n; i++ {
+		g := newMsgGen(r)
+		m := parseMsg(g.msg())
+		buf := make([]byte, m.Len())
+		k, err := m.Pack(buf, r.Intn(2) == 1, 0)
+		dnsmsg.ReleaseMsg(m)
+		if err != nil {
+			continue
+		}
+		b := append([]byte(nil), buf[:k]...)
+		b[0], b[1], b[2], b[3] = byte(r.Intn(256)), byte(r.Intn(256)), byte(r.Intn(256)), byte(r.Intn(256))
+		emit(hexs(b), "msg-randhdr")
+	}
+}
+
 func runPack(cs string) string {
 	m := parseMsg(cs)
 	defer dnsmsg.ReleaseMsg(m)
@@ -51,7 +112,10 @@ func runPack(cs string) string {
 		if t, err := miekgText(out); err != nil || t != want {
 			mk = "0"
 		}
-		if t, err := xnetText(out); err != nil || t != want {
+		hx := m.Header
+		setHdrZero(&hx, false)
+		wantX := hdrText(hx) + strings.TrimPrefix(want, hdrText(m.Header))
+		if t, err := xnetText(out); err != nil || t != wantX {
 			xn = "0"
 		}
 		res += " ## mk=" + mk + " xn=" + xn
@@ -136,8 +200,8 @@ func miekgText(b []byte) (string, error) {
 		return "", err
 	}
 	var sb strings.Builder
-	fmt.Fprintf(&sb, "h=%d,%s,%d,%s,%s,%s,%s,%s,%s,%d", m.Id, b2s(m.Response), m.Opcode, b2s(m.Authoritative), b2s(m.Truncated),
-		b2s(m.RecursionDesired), b2s(m.RecursionAvailable), b2s(m.AuthenticatedData), b2s(m.CheckingDisabled), m.Rcode&0xF)
+	fmt.Fprintf(&sb, "h=%d,%s,%d,%s,%s,%s,%s,%s,%s,%d,%s", m.Id, b2s(m.Response), m.Opcode, b2s(m.Authoritative), b2s(m.Truncated),
+		b2s(m.RecursionDesired), b2s(m.RecursionAvailable), b2s(m.AuthenticatedData), b2s(m.CheckingDisabled), m.Rcode&0xF, b2s(m.Zero))
 	for _, q := range m.Question {
 		fmt.Fprintf(&sb, " q=%s,%d,%d", hexs(miekgNameWire(q.Name)), q.Qtype, q.Qclass)
 	}
@@ -216,7 +280,8 @@ func xnetText(b []byte) (string, error) {
 		return "", err
 	}
 	var sb strings.Builder
-	fmt.Fprintf(&sb, "h=%d,%s,%d,%s,%s,%s,%s,%s,%s,%d", h.ID, b2s(h.Response), h.OpCode, b2s(h.Authoritative), b2s(h.Truncated),
+	// x/net's Header has no field for the reserved bit Z: it is printed as 0 and the expectation is adjusted (runPack)
+	fmt.Fprintf(&sb, "h=%d,%s,%d,%s,%s,%s,%s,%s,%s,%d,0", h.ID, b2s(h.Response), h.OpCode, b2s(h.Authoritative), b2s(h.Truncated),
 		b2s(h.RecursionDesired), b2s(h.RecursionAvailable), b2s(h.AuthenticData), b2s(h.CheckingDisabled), h.RCode)
 	qs, err := p.AllQuestions()
 	if err != nil {
@@ -527,4 +592,5 @@ func adversarial() [][]byte {
 func init() {
 	register("unpack", &component{gen: genUnpack, run: runUnpack})
 	register("pack", &component{gen: genPack, run: runPack})
+	register("reencode", &component{gen: genReencode, run: runReencode})
 }
